@@ -11,86 +11,86 @@ CLAIMED = {
   "design_ref": "DESIGN.md section 5 (C20)",
  },
  "C01": {
-  "text": "Guard at every return of the abstract machine: Ok only if no report was made since the frame was entered, Err only with exactly the bag of reports made since then (none dropped, none twice); Inv_C01 on the generative model over every obligation order x every Continue/Break sequence. Conformance: seeded type-directed payloads on 87 catalogue entries through both value sources under the keep-going script, every C^k B^w script, all scripts for few decisions, random scripts, built-in error types and permuted members; every canonical behaviour TLC finds on the small inputs is replayed; all traces validated by TLC (Trace_core).",
-  "note": "Bounded: catalogue of 87 entries (hand-written); payload sizes <= 7/9 nodes for the exhaustive model, larger random payloads only through trace validation. First deviation wins per run. Trusted: TLC, Json module, std FromStr tables logged by the harness, the recording error type keeps what it is handed.",
+  "text": "Guard at every return of the abstract machine: Ok only if no report was made since the frame was entered, Err only with exactly the bag of reports made since then (none dropped, none twice); Inv_C01 on the generative model over every obligation order x every Continue/Break sequence. Conformance: seeded type-directed payloads on the ~130 catalogue entries through both value sources under the keep-going script, every C^k B^w script, all scripts for few decisions, random scripts, built-in error types and permuted members; every canonical behaviour TLC finds on the small inputs is replayed; all traces validated by TLC (Trace_core).",
+  "note": "Bounded: catalogue of ~130 hand-written entries (thorough: + 40 seeded random derive inputs); payload sizes <= 7/9 nodes for the exhaustive model, larger random payloads only through trace validation. First deviation wins per run. Trusted: TLC, Json module, std FromStr tables logged by the harness, the recording error type keeps what it is handed.",
   "technique": "TLA+ abstract deserialization machine: TLC model checking (all orders x answers) + spec->impl replay + impl->spec trace validation",
   "design_ref": "DESIGN.md sections 3-5 (C01)",
  },
  "C02": {
-  "text": "The keep-going run's report bag equals the declarative Faults(type, payload) (independent wording, masking only by structural causes); a frame never returns while obligations are pending unless a stop was answered; checked on the model for all orders and on every all-Continue trace of the real code. Conformance: seeded type-directed payloads on 87 catalogue entries through both value sources under the keep-going script, every C^k B^w script, all scripts for few decisions, random scripts, built-in error types and permuted members; every canonical behaviour TLC finds on the small inputs is replayed; all traces validated by TLC (Trace_core).",
-  "note": "Bounded: catalogue of 87 entries (hand-written); payload sizes <= 7/9 nodes for the exhaustive model, larger random payloads only through trace validation. First deviation wins per run. Trusted: TLC, Json module, std FromStr tables logged by the harness, the recording error type keeps what it is handed.",
+  "text": "The keep-going run's report bag equals the declarative Faults(type, payload) (independent wording, masking only by structural causes); a frame never returns while obligations are pending unless a stop was answered; checked on the model for all orders and on every all-Continue trace of the real code. Conformance: seeded type-directed payloads on the ~130 catalogue entries through both value sources under the keep-going script, every C^k B^w script, all scripts for few decisions, random scripts, built-in error types and permuted members; every canonical behaviour TLC finds on the small inputs is replayed; all traces validated by TLC (Trace_core).",
+  "note": "Bounded: catalogue of ~130 hand-written entries (thorough: + 40 seeded random derive inputs); payload sizes <= 7/9 nodes for the exhaustive model, larger random payloads only through trace validation. First deviation wins per run. Trusted: TLC, Json module, std FromStr tables logged by the harness, the recording error type keeps what it is handed.",
   "technique": "TLA+ abstract deserialization machine: TLC model checking (all orders x answers) + spec->impl replay + impl->spec trace validation",
   "design_ref": "DESIGN.md sections 3-5 (C02)",
  },
  "C03": {
-  "text": "After a stop answer the frame's only candidate is to return; with all later answers stop no new report is made (Inv_C03); every scripted run of the real code is compared event by event with the keep-going run of the same input up to its first stop; JsonError / QueryParamError results equal the rendered first report of the keep-going run. Conformance: seeded type-directed payloads on 87 catalogue entries through both value sources under the keep-going script, every C^k B^w script, all scripts for few decisions, random scripts, built-in error types and permuted members; every canonical behaviour TLC finds on the small inputs is replayed; all traces validated by TLC (Trace_core).",
-  "note": "Bounded: catalogue of 87 entries (hand-written); payload sizes <= 7/9 nodes for the exhaustive model, larger random payloads only through trace validation. First deviation wins per run. Trusted: TLC, Json module, std FromStr tables logged by the harness, the recording error type keeps what it is handed.",
+  "text": "After a stop answer the frame's only candidate is to return; with all later answers stop no new report is made (Inv_C03); every scripted run of the real code is compared event by event with the keep-going run of the same input up to its first stop; JsonError / QueryParamError results equal the rendered first report of the keep-going run. Conformance: seeded type-directed payloads on the ~130 catalogue entries through both value sources under the keep-going script, every C^k B^w script, all scripts for few decisions, random scripts, built-in error types and permuted members; every canonical behaviour TLC finds on the small inputs is replayed; all traces validated by TLC (Trace_core).",
+  "note": "Bounded: catalogue of ~130 hand-written entries (thorough: + 40 seeded random derive inputs); payload sizes <= 7/9 nodes for the exhaustive model, larger random payloads only through trace validation. First deviation wins per run. Trusted: TLC, Json module, std FromStr tables logged by the harness, the recording error type keeps what it is handed.",
   "technique": "TLA+ abstract deserialization machine: TLC model checking (all orders x answers) + spec->impl replay + impl->spec trace validation",
   "design_ref": "DESIGN.md sections 3-5 (C03)",
  },
  "C04": {
-  "text": "Every enter / report / hand-over location and quoted value is compared with what the machine computes from the payload by descent (child position = parent position + own step; actual = value there; hand-over location = the child's own position); Inv_C04 on the model. Conformance: seeded type-directed payloads on 87 catalogue entries through both value sources under the keep-going script, every C^k B^w script, all scripts for few decisions, random scripts, built-in error types and permuted members; every canonical behaviour TLC finds on the small inputs is replayed; all traces validated by TLC (Trace_core).",
-  "note": "Bounded: catalogue of 87 entries (hand-written); payload sizes <= 7/9 nodes for the exhaustive model, larger random payloads only through trace validation. First deviation wins per run. Trusted: TLC, Json module, std FromStr tables logged by the harness, the recording error type keeps what it is handed.",
+  "text": "Every enter / report / hand-over location and quoted value is compared with what the machine computes from the payload by descent (child position = parent position + own step; actual = value there; hand-over location = the child's own position); Inv_C04 on the model. Conformance: seeded type-directed payloads on the ~130 catalogue entries through both value sources under the keep-going script, every C^k B^w script, all scripts for few decisions, random scripts, built-in error types and permuted members; every canonical behaviour TLC finds on the small inputs is replayed; all traces validated by TLC (Trace_core).",
+  "note": "Bounded: catalogue of ~130 hand-written entries (thorough: + 40 seeded random derive inputs); payload sizes <= 7/9 nodes for the exhaustive model, larger random payloads only through trace validation. First deviation wins per run. Trusted: TLC, Json module, std FromStr tables logged by the harness, the recording error type keeps what it is handed.",
   "technique": "TLA+ abstract deserialization machine: TLC model checking (all orders x answers) + spec->impl replay + impl->spec trace validation",
   "design_ref": "DESIGN.md sections 3-5 (C04)",
  },
  "C06": {
-  "text": "Arity / kind failures, element i from payload element i, set / map / Option / Box / CS semantics are clauses of Classify, Child and ValueAgrees; every success value of the real code is compared with the combination of the children's observed values; ValueOf / EqMod on the model. Conformance: seeded type-directed payloads on 87 catalogue entries through both value sources under the keep-going script, every C^k B^w script, all scripts for few decisions, random scripts, built-in error types and permuted members; every canonical behaviour TLC finds on the small inputs is replayed; all traces validated by TLC (Trace_core).",
-  "note": "Bounded: catalogue of 87 entries (hand-written); payload sizes <= 7/9 nodes for the exhaustive model, larger random payloads only through trace validation. First deviation wins per run. Trusted: TLC, Json module, std FromStr tables logged by the harness, the recording error type keeps what it is handed.",
+  "text": "Arity / kind failures, element i from payload element i, set / map / Option / Box / CS semantics are clauses of Classify, Child and ValueAgrees; every success value of the real code is compared with the combination of the children's observed values; ValueOf / EqMod on the model. Conformance: seeded type-directed payloads on the ~130 catalogue entries through both value sources under the keep-going script, every C^k B^w script, all scripts for few decisions, random scripts, built-in error types and permuted members; every canonical behaviour TLC finds on the small inputs is replayed; all traces validated by TLC (Trace_core).",
+  "note": "Bounded: catalogue of ~130 hand-written entries (thorough: + 40 seeded random derive inputs); payload sizes <= 7/9 nodes for the exhaustive model, larger random payloads only through trace validation. First deviation wins per run. Trusted: TLC, Json module, std FromStr tables logged by the harness, the recording error type keeps what it is handed.",
   "technique": "TLA+ abstract deserialization machine: TLC model checking (all orders x answers) + spec->impl replay + impl->spec trace validation",
   "design_ref": "DESIGN.md sections 3-5 (C06)",
  },
  "C07": {
-  "text": "EffKey (rename > rename_all > identifier, camelCase / lowercase computed in the spec from identifier characters) routes members to fields; a field node entered for another key, or a value not taken from its key, has no candidate. Conformance: seeded type-directed payloads on 87 catalogue entries through both value sources under the keep-going script, every C^k B^w script, all scripts for few decisions, random scripts, built-in error types and permuted members; every canonical behaviour TLC finds on the small inputs is replayed; all traces validated by TLC (Trace_core).",
-  "note": "Bounded: catalogue of 87 entries (hand-written); payload sizes <= 7/9 nodes for the exhaustive model, larger random payloads only through trace validation. First deviation wins per run. Trusted: TLC, Json module, std FromStr tables logged by the harness, the recording error type keeps what it is handed.",
+  "text": "EffKey (rename > rename_all > identifier, camelCase / lowercase computed in the spec from identifier characters) routes members to fields; a field node entered for another key, or a value not taken from its key, has no candidate. Conformance: seeded type-directed payloads on the ~130 catalogue entries through both value sources under the keep-going script, every C^k B^w script, all scripts for few decisions, random scripts, built-in error types and permuted members; every canonical behaviour TLC finds on the small inputs is replayed; all traces validated by TLC (Trace_core).",
+  "note": "Bounded: catalogue of ~130 hand-written entries (thorough: + 40 seeded random derive inputs); payload sizes <= 7/9 nodes for the exhaustive model, larger random payloads only through trace validation. First deviation wins per run. Trusted: TLC, Json module, std FromStr tables logged by the harness, the recording error type keeps what it is handed.",
   "technique": "TLA+ abstract deserialization machine: TLC model checking (all orders x answers) + spec->impl replay + impl->spec trace validation",
   "design_ref": "DESIGN.md sections 3-5 (C07)",
  },
  "C08": {
-  "text": "Missing(f) obligations exist exactly for non-skipped, default-less fields whose effective key is routed from no member; skipped fields have no Enter candidate; defaults / map on top are part of ValueAgrees; custom missing functions are calls with (EffKey, container location). Conformance: seeded type-directed payloads on 87 catalogue entries through both value sources under the keep-going script, every C^k B^w script, all scripts for few decisions, random scripts, built-in error types and permuted members; every canonical behaviour TLC finds on the small inputs is replayed; all traces validated by TLC (Trace_core).",
-  "note": "Bounded: catalogue of 87 entries (hand-written); payload sizes <= 7/9 nodes for the exhaustive model, larger random payloads only through trace validation. First deviation wins per run. Trusted: TLC, Json module, std FromStr tables logged by the harness, the recording error type keeps what it is handed.",
+  "text": "Missing(f) obligations exist exactly for non-skipped, default-less fields whose effective key is routed from no member; skipped fields have no Enter candidate; defaults / map on top are part of ValueAgrees; custom missing functions are calls with (EffKey, container location). Conformance: seeded type-directed payloads on the ~130 catalogue entries through both value sources under the keep-going script, every C^k B^w script, all scripts for few decisions, random scripts, built-in error types and permuted members; every canonical behaviour TLC finds on the small inputs is replayed; all traces validated by TLC (Trace_core).",
+  "note": "Bounded: catalogue of ~130 hand-written entries (thorough: + 40 seeded random derive inputs); payload sizes <= 7/9 nodes for the exhaustive model, larger random payloads only through trace validation. First deviation wins per run. Trusted: TLC, Json module, std FromStr tables logged by the harness, the recording error type keeps what it is handed.",
   "technique": "TLA+ abstract deserialization machine: TLC model checking (all orders x answers) + spec->impl replay + impl->spec trace validation",
   "design_ref": "DESIGN.md sections 3-5 (C08)",
  },
  "C09": {
-  "text": "Unknown members are obligations only under deny_unknown_fields (report with Accepted in declaration order at the container location, or the user function called with key / accepted / location); without the attribute they are not obligations at all, so nothing about them can be observed. Conformance: seeded type-directed payloads on 87 catalogue entries through both value sources under the keep-going script, every C^k B^w script, all scripts for few decisions, random scripts, built-in error types and permuted members; every canonical behaviour TLC finds on the small inputs is replayed; all traces validated by TLC (Trace_core).",
-  "note": "Bounded: catalogue of 87 entries (hand-written); payload sizes <= 7/9 nodes for the exhaustive model, larger random payloads only through trace validation. First deviation wins per run. Trusted: TLC, Json module, std FromStr tables logged by the harness, the recording error type keeps what it is handed.",
+  "text": "Unknown members are obligations only under deny_unknown_fields (report with Accepted in declaration order at the container location, or the user function called with key / accepted / location); without the attribute they are not obligations at all, so nothing about them can be observed. Conformance: seeded type-directed payloads on the ~130 catalogue entries through both value sources under the keep-going script, every C^k B^w script, all scripts for few decisions, random scripts, built-in error types and permuted members; every canonical behaviour TLC finds on the small inputs is replayed; all traces validated by TLC (Trace_core).",
+  "note": "Bounded: catalogue of ~130 hand-written entries (thorough: + 40 seeded random derive inputs); payload sizes <= 7/9 nodes for the exhaustive model, larger random payloads only through trace validation. First deviation wins per run. Trusted: TLC, Json module, std FromStr tables logged by the harness, the recording error type keeps what it is handed.",
   "technique": "TLA+ abstract deserialization machine: TLC model checking (all orders x answers) + spec->impl replay + impl->spec trace validation",
   "design_ref": "DESIGN.md sections 3-5 (C09)",
  },
  "C10": {
-  "text": "Classify of enum nodes: tag lookup, missing / non-string / unknown tag reports at the stated places, variant selected by exact VariantKey, fields read by the variant's own rules from the remaining members; unit enums by exact string with all variant keys listed. Conformance: seeded type-directed payloads on 87 catalogue entries through both value sources under the keep-going script, every C^k B^w script, all scripts for few decisions, random scripts, built-in error types and permuted members; every canonical behaviour TLC finds on the small inputs is replayed; all traces validated by TLC (Trace_core).",
-  "note": "Bounded: catalogue of 87 entries (hand-written); payload sizes <= 7/9 nodes for the exhaustive model, larger random payloads only through trace validation. First deviation wins per run. Trusted: TLC, Json module, std FromStr tables logged by the harness, the recording error type keeps what it is handed.",
+  "text": "Classify of enum nodes: tag lookup, missing / non-string / unknown tag reports at the stated places, variant selected by exact VariantKey, fields read by the variant's own rules from the remaining members; unit enums by exact string with all variant keys listed. Conformance: seeded type-directed payloads on the ~130 catalogue entries through both value sources under the keep-going script, every C^k B^w script, all scripts for few decisions, random scripts, built-in error types and permuted members; every canonical behaviour TLC finds on the small inputs is replayed; all traces validated by TLC (Trace_core).",
+  "note": "Bounded: catalogue of ~130 hand-written entries (thorough: + 40 seeded random derive inputs); payload sizes <= 7/9 nodes for the exhaustive model, larger random payloads only through trace validation. First deviation wins per run. Trusted: TLC, Json module, std FromStr tables logged by the harness, the recording error type keeps what it is handed.",
   "technique": "TLA+ abstract deserialization machine: TLC model checking (all orders x answers) + spec->impl replay + impl->spec trace validation",
   "design_ref": "DESIGN.md sections 3-5 (C10)",
  },
  "C11": {
-  "text": "Call / Ret of from, try_from, map, validate and the merges that follow a failure are machine events with their own phases (conversion only after a good intermediate exit, map and validate only in frames without failure, merge first under the field's error type then into the container's); Inv_C11 on the model. Conformance: seeded type-directed payloads on 87 catalogue entries through both value sources under the keep-going script, every C^k B^w script, all scripts for few decisions, random scripts, built-in error types and permuted members; every canonical behaviour TLC finds on the small inputs is replayed; all traces validated by TLC (Trace_core).",
-  "note": "Bounded: catalogue of 87 entries (hand-written); payload sizes <= 7/9 nodes for the exhaustive model, larger random payloads only through trace validation. First deviation wins per run. Trusted: TLC, Json module, std FromStr tables logged by the harness, the recording error type keeps what it is handed.",
+  "text": "Call / Ret of from, try_from, map, validate and the merges that follow a failure are machine events with their own phases (conversion only after a good intermediate exit, map and validate only in frames without failure, merge first under the field's error type then into the container's); Inv_C11 on the model. Conformance: seeded type-directed payloads on the ~130 catalogue entries through both value sources under the keep-going script, every C^k B^w script, all scripts for few decisions, random scripts, built-in error types and permuted members; every canonical behaviour TLC finds on the small inputs is replayed; all traces validated by TLC (Trace_core).",
+  "note": "Bounded: catalogue of ~130 hand-written entries (thorough: + 40 seeded random derive inputs); payload sizes <= 7/9 nodes for the exhaustive model, larger random payloads only through trace validation. First deviation wins per run. Trusted: TLC, Json module, std FromStr tables logged by the harness, the recording error type keeps what it is handed.",
   "technique": "TLA+ abstract deserialization machine: TLC model checking (all orders x answers) + spec->impl replay + impl->spec trace validation",
   "design_ref": "DESIGN.md sections 3-5 (C11)",
  },
  "C12": {
-  "text": "Panic sites are not transitions: the generative model is checked for absence of deadlock before Done, for termination, and evaluates no result of a missing obligation; every harness call runs under catch_unwind and a panic event is a violation; adversarial drivers (extreme numbers, duplicate keys, depth 30 spelled out, depth 127 described). Conformance: seeded type-directed payloads on 87 catalogue entries through both value sources under the keep-going script, every C^k B^w script, all scripts for few decisions, random scripts, built-in error types and permuted members; every canonical behaviour TLC finds on the small inputs is replayed; all traces validated by TLC (Trace_core).",
-  "note": "Bounded: catalogue of 87 entries (hand-written); payload sizes <= 7/9 nodes for the exhaustive model, larger random payloads only through trace validation. First deviation wins per run. Trusted: TLC, Json module, std FromStr tables logged by the harness, the recording error type keeps what it is handed.",
+  "text": "Panic sites are not transitions: the generative model is checked for absence of deadlock before Done, for termination, and evaluates no result of a missing obligation; every harness call runs under catch_unwind and a panic event is a violation; adversarial drivers (extreme numbers, duplicate keys, depth 30 spelled out, depth 127 described). Conformance: seeded type-directed payloads on the ~130 catalogue entries through both value sources under the keep-going script, every C^k B^w script, all scripts for few decisions, random scripts, built-in error types and permuted members; every canonical behaviour TLC finds on the small inputs is replayed; all traces validated by TLC (Trace_core).",
+  "note": "Bounded: catalogue of ~130 hand-written entries (thorough: + 40 seeded random derive inputs); payload sizes <= 7/9 nodes for the exhaustive model, larger random payloads only through trace validation. First deviation wins per run. Trusted: TLC, Json module, std FromStr tables logged by the harness, the recording error type keeps what it is handed.",
   "technique": "TLA+ abstract deserialization machine: TLC model checking (all orders x answers) + spec->impl replay + impl->spec trace validation",
   "design_ref": "DESIGN.md sections 3-5 (C12)",
  },
  "C14": {
-  "text": "For every report of a keep-going run over serde_json the real JsonError and QueryParamError renderings are logged and their back-quoted segments compared (as a bag) with what DMessages prescribes from the structured report: path (query without leading dot), value parsed back, names, every alternative, suggestion iff DDidYouMean!Suggest, detail segments; kinds phrase of DKinds; lengths; JsonError's path read back resolves to the quoted value. Conformance: seeded type-directed payloads on 87 catalogue entries through both value sources under the keep-going script, every C^k B^w script, all scripts for few decisions, random scripts, built-in error types and permuted members; every canonical behaviour TLC finds on the small inputs is replayed; all traces validated by TLC (Trace_core).",
-  "note": "Bounded: catalogue of 87 entries (hand-written); payload sizes <= 7/9 nodes for the exhaustive model, larger random payloads only through trace validation. First deviation wins per run. Trusted: TLC, Json module, std FromStr tables logged by the harness, the recording error type keeps what it is handed.",
+  "text": "For every report of a keep-going run over serde_json the real JsonError and QueryParamError renderings are logged and their back-quoted segments compared (as a bag) with what DMessages prescribes from the structured report: path (query without leading dot), value parsed back, names, every alternative, a suggestion exactly when an alternative is within the typo budget (naming one of those), detail segments; lengths; JsonError's path read back resolves to the quoted value. Conformance: seeded type-directed payloads on the ~130 catalogue entries through both value sources under the keep-going script, every C^k B^w script, all scripts for few decisions, random scripts, built-in error types and permuted members; every canonical behaviour TLC finds on the small inputs is replayed; all traces validated by TLC (Trace_core).",
+  "note": "Bounded: catalogue of ~130 hand-written entries (thorough: + 40 seeded random derive inputs); payload sizes <= 7/9 nodes for the exhaustive model, larger random payloads only through trace validation. First deviation wins per run. Trusted: TLC, Json module, std FromStr tables logged by the harness, the recording error type keeps what it is handed.",
   "technique": "TLA+ abstract deserialization machine: TLC model checking (all orders x answers) + spec->impl replay + impl->spec trace validation",
   "design_ref": "DESIGN.md sections 3-5 (C14)",
  },
  "C15": {
-  "text": "The model picks obligations in any order, so Inv_C02 / Inv_C15 (result = order-free Faults / ValueOf) hold over all member orders; the real code is run on permuted members through the order-preserving value source and each outcome is compared with the reference run of the same input. Conformance: seeded type-directed payloads on 87 catalogue entries through both value sources under the keep-going script, every C^k B^w script, all scripts for few decisions, random scripts, built-in error types and permuted members; every canonical behaviour TLC finds on the small inputs is replayed; all traces validated by TLC (Trace_core).",
-  "note": "Bounded: catalogue of 87 entries (hand-written); payload sizes <= 7/9 nodes for the exhaustive model, larger random payloads only through trace validation. First deviation wins per run. Trusted: TLC, Json module, std FromStr tables logged by the harness, the recording error type keeps what it is handed.",
+  "text": "The model picks obligations in any order, so Inv_C02 / Inv_C15 (result = order-free Faults / ValueOf) hold over all member orders; the real code is run on permuted members through the order-preserving value source and each outcome is compared with the reference run of the same input. Conformance: seeded type-directed payloads on the ~130 catalogue entries through both value sources under the keep-going script, every C^k B^w script, all scripts for few decisions, random scripts, built-in error types and permuted members; every canonical behaviour TLC finds on the small inputs is replayed; all traces validated by TLC (Trace_core).",
+  "note": "Bounded: catalogue of ~130 hand-written entries (thorough: + 40 seeded random derive inputs); payload sizes <= 7/9 nodes for the exhaustive model, larger random payloads only through trace validation. First deviation wins per run. Trusted: TLC, Json module, std FromStr tables logged by the harness, the recording error type keeps what it is handed.",
   "technique": "TLA+ abstract deserialization machine: TLC model checking (all orders x answers) + spec->impl replay + impl->spec trace validation",
   "design_ref": "DESIGN.md sections 3-5 (C15)",
  },
 
  "C16": {
-  "text": "The derive front end is a TLA+ state machine (DDerive: items consumed one by one into single-valued slots, then the final attribute-combination and shape checks). TLC explores every item sequence of <= 2 (quick) / <= 3 (thorough) items at container, variant and field level in every grouping, valid / invalid value / malformed, and every shape, and checks NoOverride, NoDrop, PoisonRejected, OnlyPoisonRejected and that the machine equals its functional form. Every decided input (2 236 quick; thorough: those plus a seeded sample of 5 000 three-item inputs) is rendered to a Rust item and compiled against the working tree; TLC validates per input that it is rejected exactly when the property lists a cause, by a diagnostic issued by the derive and never a panic, and that accepted inputs compile.",
+  "text": "The derive front end is a TLA+ state machine (DDerive: items consumed one by one into single-valued slots, then the final attribute-combination and shape checks). TLC explores every item sequence of <= 2 (quick) / <= 3 (thorough) items at container, variant and field level in every grouping, valid / invalid value / malformed, and every shape, and checks NoOverride, NoDrop, PoisonRejected, OnlyPoisonRejected and that the machine equals its functional form. Every decided input (2 236 quick; thorough: those plus a seeded sample of 5 000 three-item inputs) is rendered to a Rust item and compiled against the working tree; TLC validates per input that everything the property lists is rejected by a diagnostic issued by the derive and never by a panic, and that an input it does not list either compiles or is refused by the derive itself.",
   "note": "One representative item per shape/level (named struct, tagged enum); helper functions are well typed. A diagnostic without error code is taken to be issued by the derive. Bounded by item-sequence length.",
   "technique": "TLA+ state machine of the attribute parser + TLC exhaustive exploration; spec->impl replay through rustc; impl->spec trace validation of compiler diagnostics",
   "design_ref": "DESIGN.md section 5 (C16)",
@@ -108,13 +108,13 @@ CLAIMED = {
   "design_ref": "DESIGN.md section 5 (C05)",
  },
  "C18": {
-  "text": "The suggestion rule (byte-length budget, unrestricted Damerau-Levenshtein distance over scalar values, earliest minimal candidate) is a TLA+ function. TLC proves on every pair of strings over a 3-symbol alphabet up to length 4 (quick) / 5 (thorough) that the Lowrance-Wagner DP used by the spec equals the shortest-path distance of the four-operation edit graph (Zero/Lipschitz/Descent invariants) and checks the structural facts of the property; all enumerated (received, candidates) inputs, a wide alphabet with 2- and 4-byte symbols, and seeded random multi-candidate lists around every byte threshold are executed on the real did_you_mean and each returned string is validated verbatim by TLC.",
+  "text": "The suggestion rule (byte-length budget, unrestricted Damerau-Levenshtein distance over scalar values, earliest minimal candidate) is a TLA+ function. TLC proves on every pair of strings over a 3-symbol alphabet up to length 4 (quick) / 5 (thorough) that the Lowrance-Wagner DP used by the spec equals the shortest-path distance of the four-operation edit graph (Zero/Lipschitz/Descent invariants) and checks the structural facts of the property; all enumerated (received, candidates) inputs, a wide alphabet with 2- and 4-byte symbols, and seeded random multi-candidate lists around every byte threshold are executed on the real did_you_mean and for each call TLC validates that the result is empty or names (between back-quotes) exactly the accepted string the specification computes.",
   "note": "Bounded: exhaustive pairs up to length 4/5 over 3 symbols; random strings up to 30 bytes, lists up to ~10 candidates. Trusted: TLC, Json module, harness s.chars() encoding.",
   "technique": "TLA+ function definition with TLC-checked inductive characterisation of the distance; exhaustive spec->impl replay; impl->spec trace validation",
   "design_ref": "DESIGN.md section 5 (C18)",
  },
  "C17": {
-  "text": "TLC enumerates every list of <= 5 (quick) / 6 (thorough) value kinds with repetitions and checks that the TLA+ transcription of sort+dedup+description_rec equals the declarative set-based phrase DescSpec and is invariant under adjacent swaps; every enumerated list, all 256 subsets in random permutations with repetitions and random longer lists are executed on the real value_kinds_description_json and each (input, output) line is validated by TLC against DescSpec.",
+  "text": "TLC enumerates every list of <= 5 (quick) / 6 (thorough) value kinds with repetitions and checks that the TLA+ transcription of sort+dedup+description_rec equals the declarative set-based phrase DescSpec and is invariant under adjacent swaps; every enumerated list, all 256 subsets in random permutations with repetitions and random longer lists are executed on the real value_kinds_description_json and each (input, output, items) line is validated by TLC against what the property fixes (set dependence, exact cover with 'a number' / 'an integer' merging, join grammar, one fixed order for all inputs); the individual names, the fallback text and which order it is are observed once (probe line) and must be injective / antisymmetric.",
   "note": "Bounded: lists up to length 5/6 exhaustively, random lists up to 12/14. Trusted: TLC string concatenation, the Json module.",
   "technique": "TLA+ definition of the phrase (set-based spec + transcription) checked by TLC; exhaustive spec->impl replay and impl->spec trace validation",
   "design_ref": "DESIGN.md section 5 (C17)",
